@@ -8,6 +8,7 @@
 #include "managers/variables/manager.h"
 #include "recursive_member_resolver.h"
 #include <cstring> // for strdup
+#include <map>
 
 namespace AssignmentHandlers {
 
@@ -153,9 +154,21 @@ void execute_member_assignment(StatementExecutor *executor,
         }
 
         // 評価用のラムダ関数
-        auto evaluate_index =
-            [&interpreter](const ASTNode *idx_node) -> int64_t {
-            return interpreter.evaluate(idx_node);
+        // Each index expression of the target (shapes[i].edges[j].x = v) is
+        // evaluated once per assignment: the value is remembered per index
+        // node, because the "individual variable" sync further down needs the
+        // same indices again to build the path name and used to evaluate the
+        // index expressions a second time.
+        std::map<const ASTNode *, int64_t> evaluated_indices;
+        auto evaluate_index = [&interpreter, &evaluated_indices](
+                                  const ASTNode *idx_node) -> int64_t {
+            auto known = evaluated_indices.find(idx_node);
+            if (known != evaluated_indices.end()) {
+                return known->second;
+            }
+            int64_t value = interpreter.evaluate(idx_node);
+            evaluated_indices[idx_node] = value;
+            return value;
         };
 
         // ルート変数名を取得してconstチェック
@@ -273,7 +286,7 @@ void execute_member_assignment(StatementExecutor *executor,
                 return base->name;
             } else if (base->node_type == ASTNodeType::AST_ARRAY_REF) {
                 std::string left_path = build_base_path(base->left.get());
-                int64_t index = interpreter.evaluate(base->array_index.get());
+                int64_t index = evaluate_index(base->array_index.get());
                 return left_path + "[" + std::to_string(index) + "]";
             } else if (base->node_type == ASTNodeType::AST_MEMBER_ACCESS) {
                 std::string left_path = build_base_path(base->left.get());
